@@ -77,6 +77,7 @@ RedecChecks(c, x, tab) ==
                       Chk("C04", "redecode_" \o name \o "_fields", o.kind = "ok" => tab[o.core] = c),
                       Chk("C15", "redecode_" \o name \o "_equal", o.kind = "ok" => o.eq /\ o.hash_eq)>>
   IN r(x.redec.bytes, "bytes") \o r(x.redec.text, "text") \o r(x.redec.json, "json")
+     \o r(x.redec.json_value, "json_value") \o r(x.redec.json_reader, "json_reader")
      \o <<Chk("C12", "text_without_prefix_parses", x.redec.text_noprefix.kind = "ok"
                        /\ tab[x.redec.text_noprefix.core] = c /\ x.redec.text_noprefix.eq),
           Chk("C13", "redecode_consumes_all", x.redec.bytes.kind = "ok" => x.redec.bytes.rest = 0)>>
@@ -121,6 +122,43 @@ ExtChecks(c, x, tab) ==
      \o RedecChecks(c, x, tab)
 
 MaybeExt(e, c) == IF e.ext = <<>> THEN <<>> ELSE ExtChecks(c, e.ext[1], e.tab)
+
+\* C14: what a typed setter stored reads back, through the typed accessors, as the value that was set
+ReadBack(e) ==
+  IF e.ext = <<>> \/ e.out.kind # "ok" THEN <<>>
+  ELSE LET x == e.ext[1]  a == e.args  m == e.m
+           s4(sock) == sock = <<[ip |-> a.ip, port |-> a.port]>>
+           s6(sock) == SockObs(sock) = <<[ip |-> a.ip, port |-> a.port]>>
+       IN
+       CASE m = "set_tcp4" -> <<Chk("C14", "setter_reads_back:tcp4", x.tcp4 = <<a.port>>)>>
+         [] m = "set_tcp6" -> <<Chk("C14", "setter_reads_back:tcp6", x.tcp6 = <<a.port>>)>>
+         [] m = "set_udp4" -> <<Chk("C14", "setter_reads_back:udp4", x.udp4 = <<a.port>>)>>
+         [] m = "set_udp6" -> <<Chk("C14", "setter_reads_back:udp6", x.udp6 = <<a.port>>)>>
+         [] m = "set_ip" -> <<Chk("C14", "setter_reads_back:ip", IF Len(a.ip) = 4 THEN x.ip4 = <<a.ip>> ELSE x.ip6 = <<a.ip>>)>>
+         [] m = "set_udp_socket" ->
+              <<Chk("C14", "setter_reads_back:udp_socket", IF Len(a.ip) = 4 THEN s4(x.udp4_socket) ELSE s6(x.udp6_socket))>>
+         [] m = "set_tcp_socket" ->
+              <<Chk("C14", "setter_reads_back:tcp_socket", IF Len(a.ip) = 4 THEN s4(x.tcp4_socket) ELSE s6(x.tcp6_socket))>>
+         [] m = "set_client_info" ->
+              <<Chk("C14", "setter_reads_back:client_info",
+                    (IsAscii(a.name) /\ IsAscii(a.version) /\ (a.build # <<>> => IsAscii(a.build[1])))
+                      => x.client = <<[n |-> a.name, v |-> a.version, b |-> a.build]>>)>>
+         [] OTHER -> <<>>
+
+\* the same for the builder: the last call per field wins
+RECURSIVE BuilderReadBack(_, _, _)
+BuilderReadBack(calls, x, acc) ==
+  IF calls = <<>> THEN acc
+  ELSE LET c == Head(calls)
+           later(ms) == \E j \in 2..Len(calls) : calls[j].m \in ms \/ calls[j].m \in {"add_value", "add_value_rlp"}
+           chk == CASE c.m = "tcp4" /\ ~later({"tcp4"}) -> <<Chk("C14", "builder_reads_back:tcp4", x.tcp4 = <<c.port>>)>>
+                    [] c.m = "tcp6" /\ ~later({"tcp6"}) -> <<Chk("C14", "builder_reads_back:tcp6", x.tcp6 = <<c.port>>)>>
+                    [] c.m = "udp4" /\ ~later({"udp4"}) -> <<Chk("C14", "builder_reads_back:udp4", x.udp4 = <<c.port>>)>>
+                    [] c.m = "udp6" /\ ~later({"udp6"}) -> <<Chk("C14", "builder_reads_back:udp6", x.udp6 = <<c.port>>)>>
+                    [] c.m \in {"ip", "ip4", "ip6"} /\ ~later({"ip", "ip4", "ip6"}) ->
+                         <<Chk("C14", "builder_reads_back:ip", IF Len(c.ip) = 4 THEN x.ip4 = <<c.ip>> ELSE x.ip6 = <<c.ip>>)>>
+                    [] OTHER -> <<>>
+       IN BuilderReadBack(Tail(calls), x, acc \o chk)
 
 (***************************************************************************)
 (* decode events                                                           *)
@@ -172,7 +210,11 @@ DecodeChecks(e) ==
       \* C11: key types that the specification treats alike must have behaved alike
       verd == [q \in 1..n |-> [v |-> D(q).verdict, why |-> D(q).why]]
       accCores == {e.res[q].core : q \in {k \in 1..n : verd[k].v = "accept" /\ e.res[k].kind = "ok"}}
-      agree == Cardinality(accCores) <= 1
+      \* ... and key types for which the specification gives the same verdict must have given the same outcome
+      sameOutcome == \A q1, q2 \in 1..n :
+                       (verd[q1].v = verd[q2].v /\ verd[q1].v \in {"accept", "reject"})
+                         => e.res[q1].kind = e.res[q2].kind
+      agree == Cardinality(accCores) <= 1 /\ sameOutcome
       isolated == \A q \in 1..n : (verd[q].v = "reject" /\ verd[q].why = "pk") => e.res[q].kind # "ok"
       ext == IF e.ext = <<>> THEN <<>>
              ELSE LET qb == CHOOSE q \in 1..n : e.kts[q] = e.kt IN
@@ -252,7 +294,7 @@ CallChecks(e) ==
       c == e.tab[e.post]
       A == Apply(pre, [m |-> e.m, args |-> e.args, spk |-> e.spk,
                        argpk |-> IF e.m = "set_public_key" THEN e.argpk ELSE <<>>,
-                       fault |-> e.fault, siglen |-> SigLen(e)])
+                       fault |-> e.fault, siglen |-> SigLen(e), kt |-> e.kt])
       ok == e.out.kind = "ok"
       \* "refused for size exactly when exceeded" is stated for the built-in 64-byte schemes only: with a
       \* variable-length scheme a size refusal is admissible whenever the call could not know the final length
@@ -266,11 +308,14 @@ CallChecks(e) ==
            Chk("C05", "rekeyed_to_signer", c.nid = e.spk.nid
                         /\ StrEntry(c.pairs, PkKeyOf(e.spk.scheme)) = <<e.spk.pk>>)>>)
      \o When(~ok, <<Chk("C06", "failed_update_left_record_untouched", c = pre)>>)
-     \o RecChecks(e.kt, c, e.facts)
-     \o MaybeExt(e, c)
+     \o (LET \* CombinedKey, update signed with an ed25519 key on a record that carries a secp256k1 key: a change of
+             \* scheme, which C05 does not quantify over -- if it is not refused its result is unspecified
+             unspec == ok /\ KBase(e.kt) = "comb" /\ e.spk.scheme = "ed" /\ HasKey(pre.pairs, K_secp256k1)
+         IN SelectSeq(RecChecks(e.kt, c, e.facts) \o MaybeExt(e, c) \o ReadBack(e),
+                      LAMBDA x : ~(unspec /\ x.p \in {"C05", "C10", "C04", "C12", "C15"})))
 
 BuildChecks(e) ==
-  LET B == Build(e.calls, e.spk, e.fault, SigLen(e))
+  LET B == Build(e.kt, e.calls, e.spk, e.fault, SigLen(e))
       ok == e.out.kind = "ok"
       A == [overflow |-> FALSE, sizeErr |-> B.size > MaxSize, idErr |-> FALSE,
             typedErr |-> (B.hard \ {"SigningError", "ExceedsMaxSize"}) # {}]
@@ -283,7 +328,8 @@ BuildChecks(e) ==
            Chk("C08", "pairs_of_built_record", c.pairs = B.pairs),
            Chk("C05", "keyed_to_signer", c.nid = e.spk.nid)>>
          \o RecChecks(e.kt, c, e.facts)
-         \o MaybeExt(e, c))
+         \o MaybeExt(e, c)
+         \o (IF e.ext = <<>> THEN <<>> ELSE BuilderReadBack(e.calls, e.ext[1], <<>>)))
 
 CloneChecks(e) ==
   LET c == e.tab[e.post] IN
